@@ -1,0 +1,15 @@
+//go:build verif
+// +build verif
+
+package convert
+
+// Assumed contracts (unsafe header casts, outside the verifier's subset): the result has the
+// length of the argument and shares its memory; nothing is written.
+
+//@ func ToUnsafeString
+//@   nopanic
+//@   ensures len(s) == len(v)
+
+//@ func ToUnsafeBytes
+//@   nopanic
+//@   ensures len(v) == len(s)
